@@ -33,10 +33,10 @@ var reTraceFn = regexp.MustCompile(`\b(nstdout|nfs|ncalls|stdoutline|fskind|fspa
 
 type specExpr struct {
 	traceOnly bool // refers to the ghost effect trace of the function's own activation: checked, never assumed at call sites
-	text string
-	ast  ast.Expr
-	pkg  *types.Package
-	label string
+	text      string
+	ast       ast.Expr
+	pkg       *types.Package
+	label     string
 }
 
 type Contract struct {
@@ -75,13 +75,13 @@ type predDef struct {
 }
 
 type Contracts struct {
-	methods  map[string]*Contract // receiver type key "(*parser.PacketDslFormattor)" -> template
-	merged   map[string]*Contract
-	byKey    map[string]*Contract
-	invs     map[string]*typeInv // by type key e.g. "*model.Field"
-	preds    map[string]*predDef
-	files    []string
-	raw      map[string][]string
+	methods map[string]*Contract // receiver type key "(*parser.PacketDslFormattor)" -> template
+	merged  map[string]*Contract
+	byKey   map[string]*Contract
+	invs    map[string]*typeInv // by type key e.g. "*model.Field"
+	preds   map[string]*predDef
+	files   []string
+	raw     map[string][]string
 }
 
 var reImplies = regexp.MustCompile(`==>`)
@@ -494,16 +494,16 @@ type specVal struct {
 
 type specEnv struct {
 	wm, wmpost *Term // set while evaluating a callee's postcondition: fresh(x) means allocated by that call
-	vars    map[string]specVal
-	heap    Heap
-	oldHeap Heap
-	hasOld  bool
-	pkg     *types.Package
-	s       *State
-	bound   []*Term
-	quant   bool // inside a quantifier body: no side assumptions about bound terms
-	entryEnv *specEnv // environment of entry(e) inside loop invariants
-	iterFrom int      // iteration-ensures: index of the first trace event of the current iteration (-1: none)
+	vars       map[string]specVal
+	heap       Heap
+	oldHeap    Heap
+	hasOld     bool
+	pkg        *types.Package
+	s          *State
+	bound      []*Term
+	quant      bool     // inside a quantifier body: no side assumptions about bound terms
+	entryEnv   *specEnv // environment of entry(e) inside loop invariants
+	iterFrom   int      // iteration-ensures: index of the first trace event of the current iteration (-1: none)
 }
 
 func (e *Engine) envForFrame(s *State, f *Frame, extra map[string]specVal) *specEnv {
@@ -1408,13 +1408,13 @@ func isOldOrUnknown(v Value) bool {
 	return true
 }
 
-
 // evalTraceSpec: queries over the ghost effect trace of the current path.
-//   nstdout(), stdoutline(i)                         lines written to standard output
-//   nfs(), fskind(i), fspath(i), fsdata(i)           file-system effects (writefile/create/filewrite/mkdir)
-//   ncalls("f"), callarg("f", k, i), callres("f", k, i)   calls made through a contract or to an external
-//   called("f", a0, a1, ...)                         some call of f had exactly these leading (flattened) arguments
-//   exitcode()                                       status passed to os.Exit (exits clauses)
+//
+//	nstdout(), stdoutline(i)                         lines written to standard output
+//	nfs(), fskind(i), fspath(i), fsdata(i)           file-system effects (writefile/create/filewrite/mkdir)
+//	ncalls("f"), callarg("f", k, i), callres("f", k, i)   calls made through a contract or to an external
+//	called("f", a0, a1, ...)                         some call of f had exactly these leading (flattened) arguments
+//	exitcode()                                       status passed to os.Exit (exits clauses)
 func (e *Engine) evalTraceSpec(env *specEnv, name string, n *ast.CallExpr) specVal {
 	intT := types.Typ[types.Int]
 	strT := types.Typ[types.String]
